@@ -526,3 +526,11 @@ LEVEL_TEXT += (" The stream model is built on the normalised view and names valu
                "`Poll::Ready(..)` / `Some(..)` wrappers) from the Err case of a frame to the error item. The cap is `self.cap` captured by the generator or the `cap` field of a captured whole `self` that the generator never "
                "assigns or mutably borrows; the compared sum must structurally be running-count + Bytes::len(payload) (also let-bound / saturating_add), so another comparison with the cap (an asserted invariant) is not the check.")
 LEVEL_TEXT += ' Also (R9 = C10.R4): the request path, including the drain of an oversize body, has no unreviewed panic site.'
+
+
+SELFTEST += [
+    {"name": "buffer-presized-with-a-constant", "kind": "benign", "why": "the property holds: the accumulation buffer is reserved with a fixed 8 KiB, not with the limit",
+     "edits": [("dropshot/src/extractor/body.rs", "            .try_fold(BytesMut::new(), |mut out, chunk| {", "            .try_fold(BytesMut::with_capacity(8192), |mut out, chunk| {")]},
+    {"name": "buffer-presized-with-the-limit", "kind": "mutant", "expect": ["C11.R10"], "why": "with_capacity(cap) panics (capacity overflow) when the limit is usize::MAX: a body within the limit gets no response",
+     "edits": [("dropshot/src/extractor/body.rs", "        self.into_stream()\n            .try_fold(BytesMut::new(), |mut out, chunk| {", "        let presized = BytesMut::with_capacity(self.cap);\n        self.into_stream()\n            .try_fold(presized, |mut out, chunk| {")]},
+]
